@@ -135,18 +135,28 @@ func c36Position(c *Ctx, m *c36Model, only map[*ssa.Function]bool) {
 			}
 		}
 	}
+	same := func(a, b ssa.Value) bool {
+		return a != nil && b != nil && (a == b || unwrap(a) == unwrap(b))
+	}
 	// denotes: does prefix value X (in env terms) denote the prefix of node N?
-	var denotes func(X ssa.Value, env map[*ssa.Parameter]ssa.Value, N ssa.Value, depth int) (yes bool, what string, known bool)
-	denotes = func(X ssa.Value, env map[*ssa.Parameter]ssa.Value, N ssa.Value, depth int) (bool, string, bool) {
+	// fvs are further values known to be N's prefix (the values a fresh N made in a
+	// callee is created with, in the terms of the function X lives in); N may be
+	// nil when the node itself cannot be named there.
+	var denotes func(X ssa.Value, env map[*ssa.Parameter]ssa.Value, N ssa.Value, fvs []ssa.Value, depth int) (yes bool, what string, known bool)
+	denotes = func(X ssa.Value, env map[*ssa.Parameter]ssa.Value, N ssa.Value, fvs []ssa.Value, depth int) (bool, string, bool) {
 		if pa, ok := unwrap(X).(*ssa.Parameter); ok {
 			if a, has := env[pa]; has {
 				X, env = a, nil
 			}
 		}
 		ux := unwrap(X)
-		// the value a fresh N was created with
-		for _, fv := range m.freshField(N, m.fCidr) {
-			if fv != nil && (fv == X || unwrap(fv) == ux) {
+		// the value a fresh N was created with: trivially the node's own prefix
+		own := fvs
+		if N != nil {
+			own = append(append([]ssa.Value{}, fvs...), m.freshField(N, m.fCidr)...)
+		}
+		for _, fv := range own {
+			if same(fv, X) {
 				return true, "", true
 			}
 		}
@@ -154,7 +164,7 @@ func c36Position(c *Ctx, m *c36Model, only map[*ssa.Function]bool) {
 			if sf := call.Common().StaticCallee(); sf != nil && common[sf] {
 				var descr []string
 				for _, a := range call.Common().Args {
-					if yes, _, _ := denotes(a, env, N, depth+1); yes {
+					if yes, _, _ := denotes(a, env, N, fvs, depth+1); yes {
 						return true, "", true
 					}
 					descr = append(descr, pathN(a, 3))
@@ -167,7 +177,7 @@ func c36Position(c *Ctx, m *c36Model, only map[*ssa.Function]bool) {
 		for _, s := range m.classifyCIDR(X, env, map[ssa.Value]bool{}) {
 			switch s.kind {
 			case "node":
-				if c36SameVal(s.node, N) {
+				if N != nil && c36SameVal(s.node, N) {
 					return true, "", true
 				}
 				what = append(what, "node "+path(s.node)+"'s prefix")
@@ -179,6 +189,148 @@ func c36Position(c *Ctx, m *c36Model, only map[*ssa.Function]bool) {
 			}
 		}
 		return false, strings.Join(what, ", "), known
+	}
+	// eqFact: every path to `at` establishes X.Prefix() == Q.Prefix() for some Q
+	// accepted by okQ (then X.Prefix()+1 and Q.Prefix()+1 are the same position).
+	eqFact := func(X ssa.Value, at ssa.Instruction, okQ func(ssa.Value) bool) bool {
+		return guardedCut(at, func(cond ssa.Value, pol bool) bool {
+			bo, ok := cond.(*ssa.BinOp)
+			if !ok || !((bo.Op == token.EQL && pol) || (bo.Op == token.NEQ && !pol)) {
+				return false
+			}
+			p, okP := isPrefixCall(c36PosStripConv(bo.X))
+			q, okQ2 := isPrefixCall(c36PosStripConv(bo.Y))
+			if !okP || !okQ2 {
+				return false
+			}
+			switch {
+			case same(p, X):
+				return okQ(q)
+			case same(q, X):
+				return okQ(p)
+			}
+			return false
+		})
+	}
+	// resolve: denotes, then the dominating equality facts at `at`, then -- X being
+	// a parameter of an extracted helper -- the same question at each of the helper's
+	// static call sites with parameters mapped to arguments (N if it is a parameter;
+	// the values a fresh N is created with otherwise), the caller's equality facts
+	// included.  Anything that cannot be mapped is undecided, never a violation.
+	var resolve func(X ssa.Value, env map[*ssa.Parameter]ssa.Value, N ssa.Value, fvs []ssa.Value, at ssa.Instruction, depth int, seen map[*ssa.Parameter]bool) (bool, string, bool)
+	resolve = func(X ssa.Value, env map[*ssa.Parameter]ssa.Value, N ssa.Value, fvs []ssa.Value, at ssa.Instruction, depth int, seen map[*ssa.Parameter]bool) (bool, string, bool) {
+		if pa, ok := unwrap(X).(*ssa.Parameter); ok {
+			if a, has := env[pa]; has {
+				X, env = a, nil
+			}
+		}
+		yes, what, known := denotes(X, env, N, fvs, 0)
+		if yes || at == nil || len(env) != 0 {
+			return yes, what, known
+		}
+		ux := unwrap(X)
+		var xfn *ssa.Function
+		switch x := ux.(type) {
+		case *ssa.Parameter:
+			xfn = x.Parent()
+		case ssa.Instruction:
+			xfn = x.Parent()
+		}
+		if xfn == nil || xfn != at.Parent() {
+			return yes, what, known
+		}
+		if eqFact(X, at, func(Q ssa.Value) bool {
+			y, _, _ := denotes(Q, nil, N, fvs, 0)
+			return y
+		}) {
+			return true, "", true
+		}
+		pa, isPa := ux.(*ssa.Parameter)
+		if !isPa {
+			return yes, what, known
+		}
+		sites := m.callSites(xfn)
+		if c36Exported(xfn) || m.usedAsValue(xfn) || len(sites) == 0 {
+			return false, what, known // a genuine query of the API
+		}
+		if depth == 0 {
+			return false, what, false
+		}
+		if seen[pa] {
+			return false, what, false
+		}
+		seen[pa] = true
+		defer delete(seen, pa)
+		sub := func(v ssa.Value, args []ssa.Value) ssa.Value {
+			switch y := v.(type) {
+			case *ssa.Parameter:
+				for i, q := range xfn.Params {
+					if q == y && i < len(args) {
+						return args[i]
+					}
+				}
+			case *ssa.Const, *ssa.Global:
+				return v
+			}
+			return nil
+		}
+		own := fvs
+		if N != nil {
+			own = append(append([]ssa.Value{}, fvs...), m.freshField(N, m.fCidr)...)
+		}
+		allYes, visited := true, 0
+		var noWhat, undWhat string
+		for _, cs := range sites {
+			args := cs.Common().Args
+			X2 := sub(pa, args)
+			if X2 == nil {
+				allYes, undWhat = false, what
+				continue
+			}
+			if p2, ok := unwrap(X2).(*ssa.Parameter); ok && seen[p2] {
+				continue // recursion: the same value handed down
+			}
+			var N2 ssa.Value
+			if N != nil {
+				N2 = sub(N, args)
+			}
+			var fvs2 []ssa.Value
+			for _, fv := range own {
+				if fv == nil {
+					continue
+				}
+				if s := sub(fv, args); s != nil {
+					fvs2 = append(fvs2, s)
+				} else if s := sub(unwrap(fv), args); s != nil {
+					fvs2 = append(fvs2, s)
+				}
+			}
+			visited++
+			csIn, _ := cs.(ssa.Instruction)
+			if N2 == nil && len(fvs2) == 0 {
+				allYes, undWhat = false, what+" (the node cannot be named at the call of "+fnName(xfn)+" at "+m.site(csIn)+")"
+				continue
+			}
+			y, w, k := resolve(X2, nil, N2, fvs2, csIn, depth-1, seen)
+			switch {
+			case y:
+			case k:
+				allYes = false
+				noWhat = w + " (passed as " + pa.Name() + " to " + fnName(xfn) + " at " + m.site(csIn) + ")"
+			default:
+				allYes = false
+				undWhat = w + " (passed as " + pa.Name() + " to " + fnName(xfn) + " at " + m.site(csIn) + ")"
+			}
+		}
+		switch {
+		case visited == 0:
+			return false, what, known
+		case allYes:
+			return true, "", true
+		case noWhat != "":
+			return false, noWhat, true
+		}
+		return false, undWhat, false
 	}
 
 	type acc struct {
@@ -237,7 +389,11 @@ func c36Position(c *Ctx, m *c36Model, only map[*ssa.Function]bool) {
 					a.bad = append(a.bad, fmt.Sprintf("child of %s selected at %s by bit number %s%+d; every other routine uses prefix length + 1 (bit number len is the last bit of the node's own prefix, equal for everything below it; len+2 skips a level)", path(N), at, pathN(base, 3), k))
 					continue
 				}
-				yes, what, known := denotes(X, benv, N, 0)
+				var gat ssa.Instruction
+				if len(b.env) == 0 && b.call.Parent() == fn {
+					gat = b.call
+				}
+				yes, what, known := resolve(X, benv, N, nil, gat, 2, map[*ssa.Parameter]bool{})
 				switch {
 				case yes:
 				case !known:
